@@ -24,12 +24,15 @@ type C06Scenario struct {
 	harness.Meta
 	Kind string `json:"kind"` // policy | e2e
 	// policy level
-	Policy  int   `json:"policy,omitempty"`
-	Hosts   int   `json:"hosts,omitempty"`
-	Tasks   int   `json:"tasks,omitempty"`
-	Rounds  int   `json:"rounds,omitempty"` // picks per task = Rounds*Hosts/Tasks style, see Run
-	Conns   []int `json:"conn_counts,omitempty"`
-	RandSeq []int `json:"rand_seq,omitempty"`
+	Policy int `json:"policy,omitempty"`
+	Hosts  int `json:"hosts,omitempty"`
+	Tasks  int `json:"tasks,omitempty"`
+	Rounds int `json:"rounds,omitempty"` // picks per task = Rounds*Hosts/Tasks style, see Run
+	// Services > 1: that many services of the same policy select at the same time, each with its own balancer
+	// (from lb.New) and its own host list, as several TCP services of one process do
+	Services int   `json:"services,omitempty"`
+	Conns    []int `json:"conn_counts,omitempty"`
+	RandSeq  []int `json:"rand_seq,omitempty"`
 	// end to end
 	T *TCPScenario `json:"tcp,omitempty"`
 }
@@ -59,6 +62,9 @@ func (p c06) Gen(r *simhook.Rand, tier string, idx int) harness.Scenario {
 		sc.Hosts = 1 + r.Intn(9)
 		sc.Tasks = 2 + r.Intn(7)
 		sc.Rounds = 1 + r.Intn(4)
+		if r.Chance(1, 3) {
+			sc.Services = 2 + r.Intn(2)
+		}
 		for i := 0; i < sc.Hosts; i++ {
 			sc.Conns = append(sc.Conns, r.Intn(4))
 		}
@@ -186,6 +192,8 @@ func (p c06) Gen(r *simhook.Rand, tier string, idx int) harness.Scenario {
 			f.AsBackup = r.Chance(1, 3)
 		case 1:
 			f.Kind, f.Node = "host-add", r.Intn(nb)
+			// an endpoint may be announced again with the other type (main <-> backup), no removal in between
+			f.OtherType = r.Chance(1, 4)
 		case 2:
 			f.Kind = "host-replace"
 			for k := 0; k < nb; k++ {
@@ -210,66 +218,74 @@ func (p c06) Run(t *testing.T, s harness.Scenario) harness.Outcome {
 }
 
 func (p c06) runPolicy(t *testing.T, sc *C06Scenario) harness.Outcome {
-	var hosts []*host.Host
+	var allHosts [][]*host.Host
 	counts := map[*host.Host]int{}
+	nsvc := sc.Services
+	if nsvc < 1 {
+		nsvc = 1
+	}
 	var bad *simrt.Violation
 	w := &taskWorld{}
 	randPos := 0
 	w.setup = func(w *taskWorld) {
-		hosts = nil
-		for i := 0; i < sc.Hosts; i++ {
-			h := host.New(world.BackendAddr(i))
-			for k := 0; k < sc.Conns[i]; k++ {
-				h.IncConnCount()
-			}
-			hosts = append(hosts, h)
-		}
+		allHosts = nil
 		// the two samples of least-connection are known: the random source is fed from the scenario
 		proc.VerifSetLBRandInt(func() int {
 			v := sc.RandSeq[randPos%len(sc.RandSeq)]
 			randPos++
 			return v
 		})
-		b := proc.VerifNewBalancer(service.LoadBalancePolicy(sc.Policy))
-		isMember := func(h *host.Host) bool {
-			for _, x := range hosts {
-				if x == h {
-					return true
+		for si := 0; si < nsvc; si++ {
+			var hosts []*host.Host
+			for i := 0; i < sc.Hosts; i++ {
+				h := host.New(world.BackendAddr(si*20 + i))
+				for k := 0; k < sc.Conns[i]; k++ {
+					h.IncConnCount()
 				}
+				hosts = append(hosts, h)
 			}
-			return false
-		}
-		total := sc.Rounds * sc.Hosts * sc.Tasks // every task makes Rounds*Hosts picks: n*k picks overall with k = Rounds*Tasks
-		_ = total
-		for ti := 0; ti < sc.Tasks; ti++ {
-			w.Go(fmt.Sprintf("harness:picker%d", ti), func() {
-				for k := 0; k < sc.Rounds*sc.Hosts; k++ {
-					var s1, s2 int
-					if sc.Policy == int(service.LoadBalancePolicy_LEAST_CONNECTION) && sc.Tasks == 1 {
-						s1, s2 = sc.RandSeq[randPos%len(sc.RandSeq)]%len(hosts), sc.RandSeq[(randPos+1)%len(sc.RandSeq)]%len(hosts)
+			allHosts = append(allHosts, hosts)
+			b := proc.VerifNewBalancer(service.LoadBalancePolicy(sc.Policy))
+			isMember := func(h *host.Host) bool {
+				for _, x := range hosts {
+					if x == h {
+						return true
 					}
-					h := b.PickHost(hosts)
-					if h == nil || !isMember(h) {
-						bad = &simrt.Violation{Clause: "pick-is-member", Detail: fmt.Sprintf("policy %s returned %v which is not in the candidate list", b.Name(), h)}
-						return
-					}
-					if sc.Policy == int(service.LoadBalancePolicy_LEAST_CONNECTION) && sc.Tasks == 1 {
-						a, c := hosts[s1], hosts[s2]
-						busier := a
-						if c.ConnCount() > a.ConnCount() {
-							busier = c
+				}
+				return false
+			}
+			total := sc.Rounds * sc.Hosts * sc.Tasks // every task makes Rounds*Hosts picks: n*k picks overall with k = Rounds*Tasks
+			_ = total
+			for ti := 0; ti < sc.Tasks; ti++ {
+				w.Go(fmt.Sprintf("harness:picker%d.%d", si, ti), func() {
+					for k := 0; k < sc.Rounds*sc.Hosts; k++ {
+						var s1, s2 int
+						if sc.Policy == int(service.LoadBalancePolicy_LEAST_CONNECTION) && sc.Tasks == 1 {
+							s1, s2 = sc.RandSeq[randPos%len(sc.RandSeq)]%len(hosts), sc.RandSeq[(randPos+1)%len(sc.RandSeq)]%len(hosts)
 						}
-						if a.ConnCount() != c.ConnCount() && h == busier {
-							bad = &simrt.Violation{Clause: "least-conn-not-busier-sample", Detail: fmt.Sprintf("samples %s(%d conns) and %s(%d conns): the strictly busier one was returned", a.Addr, a.ConnCount(), c.Addr, c.ConnCount())}
+						h := b.PickHost(hosts)
+						if h == nil || !isMember(h) {
+							bad = &simrt.Violation{Clause: "pick-is-member", Detail: fmt.Sprintf("policy %s returned %v which is not in the candidate list", b.Name(), h)}
 							return
 						}
+						if sc.Policy == int(service.LoadBalancePolicy_LEAST_CONNECTION) && sc.Tasks == 1 {
+							a, c := hosts[s1], hosts[s2]
+							busier := a
+							if c.ConnCount() > a.ConnCount() {
+								busier = c
+							}
+							if a.ConnCount() != c.ConnCount() && h == busier {
+								bad = &simrt.Violation{Clause: "least-conn-not-busier-sample", Detail: fmt.Sprintf("samples %s(%d conns) and %s(%d conns): the strictly busier one was returned", a.Addr, a.ConnCount(), c.Addr, c.ConnCount())}
+								return
+							}
+						}
+						counts[h]++ // harness bookkeeping: tasks run one at a time
 					}
-					counts[h]++ // harness bookkeeping: tasks run one at a time
-				}
-			})
-		}
-		if b.PickHost(nil) != nil {
-			bad = &simrt.Violation{Clause: "pick-is-member", Detail: "PickHost on an empty list returned a host"}
+				})
+			}
+			if b.PickHost(nil) != nil {
+				bad = &simrt.Violation{Clause: "pick-is-member", Detail: "PickHost on an empty list returned a host"}
+			}
 		}
 	}
 	w.check = func(w *taskWorld) *simrt.Violation { return bad }
@@ -282,9 +298,11 @@ func (p c06) runPolicy(t *testing.T, sc *C06Scenario) harness.Outcome {
 		}
 		if sc.Policy == int(service.LoadBalancePolicy_ROUND_ROBIN) {
 			k := sc.Rounds * sc.Tasks
-			for _, h := range hosts {
-				if counts[h] != k {
-					return &simrt.Violation{Clause: "round-robin-exact", Detail: fmt.Sprintf("%d hosts, %d concurrent tasks, %d picks in total: host %s was returned %d times instead of %d", sc.Hosts, sc.Tasks, k*sc.Hosts, h.Addr, counts[h], k)}
+			for si, hosts := range allHosts {
+				for _, h := range hosts {
+					if counts[h] != k {
+						return &simrt.Violation{Clause: "round-robin-exact", Detail: fmt.Sprintf("service %d of %d (each with its own balancer): %d hosts, %d concurrent tasks, %d picks in total: host %s was returned %d times instead of %d", si, len(allHosts), sc.Hosts, sc.Tasks, k*sc.Hosts, h.Addr, counts[h], k)}
+					}
 				}
 			}
 		}
@@ -300,10 +318,10 @@ func (p c06) runPolicy(t *testing.T, sc *C06Scenario) harness.Outcome {
 
 // usable: the reference model of the hosts a connection may be sent to: members of the preferred tier
 // (main if the set has a main member, otherwise backup); without a health checker every member is healthy.
-func usable(members map[int]bool, backupFrom int) map[int]bool {
+func usable(members map[int]bool, isBackup map[int]bool) map[int]bool {
 	main, backup := map[int]bool{}, map[int]bool{}
 	for i := range members {
-		if backupFrom > 0 && i >= backupFrom {
+		if isBackup[i] {
 			backup[i] = true
 		} else {
 			main[i] = true
@@ -463,7 +481,7 @@ func (p c06) runE2E(t *testing.T, sc *C06Scenario) harness.Outcome {
 		// selection window: from the client's connect to the backend's accept of the relayed connection
 		from, to := cl.connectedStep, srv.connectedStep
 		ok := false
-		var sets []map[int]bool
+		var sets []memberEvent
 		for i, ev := range w.memberHistory {
 			end := int64(1 << 62)
 			if i+1 < len(w.memberHistory) {
@@ -472,7 +490,7 @@ func (p c06) runE2E(t *testing.T, sc *C06Scenario) harness.Outcome {
 			// the set ev.members is in force during [ev.step, end); a change requested at step s may take effect
 			// any time until its task has returned, so the previous set stays admissible until then
 			if ev.step <= to && end >= from {
-				sets = append(sets, ev.members)
+				sets = append(sets, ev)
 			}
 		}
 		for i, ev := range w.memberHistory {
@@ -482,11 +500,11 @@ func (p c06) runE2E(t *testing.T, sc *C06Scenario) harness.Outcome {
 			// previous set still admissible while the change of ev is in flight
 			done := w.changeDone[ev.step]
 			if ev.step <= to && (done == 0 || done >= from) {
-				sets = append(sets, w.memberHistory[i-1].members)
+				sets = append(sets, w.memberHistory[i-1])
 			}
 		}
 		for _, m := range sets {
-			if usable(m, ts.Env.BackupFrom)[bi] {
+			if usable(m.members, m.backup)[bi] {
 				ok = true
 			}
 		}
